@@ -59,9 +59,15 @@ META = {
                 "traced program; the model uses the symbolic derivative proved correct in symdiff_correct)",
                 "torch.matmul, indexing, copy_/fill_ into an int64 buffer (external kernels)",
                 "mpmath 50-digit arithmetic and mp.diff (oracle only)"],
+    "scope_of_ltv": "what is established about pypose's LTV: LTI.state_transition / observation read the overridable properties A, B, C, D, c1, c2 "
+                    "(subclasses overriding them are used throughout the `lin` stream) and LTV.set_refpoint(t) sets the clock; pypose's LTV does no time "
+                    "indexing — the indexing law (theorems ltv_eq_*, rollout_ltv_*, model sliceIdx / pyIndex) is the one of the harness's own subclass "
+                    "MyLTV, the pattern documented in the LTV docstring",
     "assumptions": ["NLS reference points are unbatched (1-D state and input): for batched reference points "
                     "torch's jacobian returns the full (B,n,B,n) Jacobian and c1/c2 get shape (B,n,n); outside the "
                     "modelled domain (see notes/C15.md)",
+                    "model clock is an unbounded integer, the code's an int64 buffer: statements about the code hold for |clock| < 2^63; times are "
+                    "finite numbers (inf / nan cannot be written on the wire, the code raises on them)",
                     "user state_transition / observation are pure functions of (state, input, t) built from + - * sin cos "
                     "and integer powers"],
     "hardening": "deterministic corner corpora (multi 6, lin 9, bmv 12, nls 6 cases) run first; extreme magnitudes 1e-30..1e8 / 1e40, dims to 7, "
@@ -2399,6 +2405,13 @@ def gen_bmv_case(seed, quick):
     if rng.random() < 0.06:   # batch shapes that do not broadcast
         return {"kind": "bmv", "seed": seed, "fn": fn, "full": full, "n": n, "m": m, "dtype": dtype, "b1": [], "b2": [],
                 "bad": rng.choice([[[2], [3]], [[2, 3], [2]], [[3, 1], [2, 2]], [[4], [2, 3]]]), "lie": False, "out": False, "dseed": rng.randrange(1 << 30)}
+    if rng.random() < 0.06 and fn in ("bmv", "bvmv"):   # core dimensions that violate the helper's assertion (batch shapes fine)
+        k1, k2 = rng.randint(1, 4), rng.randint(1, 4)
+        bc = ([k1, k2, k2 + rng.choice([1, 2, -1]) or 5] if fn == "bmv" else
+              rng.choice([[k1 + 1, k1, k2, k2], [k1, k1, k2, k2 + 1], [k1 + 2, k1, k2, k2 + 1], [1, k1 + 1, k2, k2]]))
+        bt = rng.choice([[], [2], [2, 3]])
+        return {"kind": "bmv", "seed": seed, "fn": fn, "full": full, "n": n, "m": m, "dtype": dtype, "b1": [], "b2": [],
+                "bad": [bt, bt], "badcore": bc, "lie": False, "out": False, "dseed": rng.randrange(1 << 30)}
     return {"kind": "bmv", "seed": seed, "fn": fn, "full": full, "n": n, "m": m, "dtype": dtype,
             "b1": b1, "b2": sub_batch(rng, full), "b3": sub_batch(rng, full), "same": same,
             "scale": rng.choice([3.0, 3.0, 3.0] + ([1e-40, 1e40, 1e-9] if dtype == "float64" else [1e-8, 1e8])),
@@ -2409,16 +2422,18 @@ def gen_bmv_case(seed, quick):
 
 
 def bb_line(fn, n, m, tensors, extra=""):
-    """`c15.bb` request: batch shapes (rank dims…) of every operand, then the items row-major"""
+    """`c15.bb` request: the declared core dimensions of every operand (the code's assertions compare them), the batch shapes
+    (rank dims…), then the items row-major"""
     core = {"bmv": [2, 1], "bvv": [1, 1], "bvmv": [1, 2, 1]}.get(fn)
     if core is None:
         core = [2, 1, 2, 1, 1][:len(tensors)]                       # lti: A x B u [c]
-    shp = []
+    shp, dims = [], []
     for t_, c_ in zip(tensors, core):
         b_ = list(t_.shape[:t_.ndim - c_])
         shp.append(f"{len(b_)} " + " ".join(map(str, b_)) if b_ else "0")
+        dims += [str(d_) for d_ in t_.shape[t_.ndim - c_:]]
     data = " ".join(wire_list(t_.double().contiguous().reshape(-1).tolist()) for t_ in tensors)
-    return f"c15.bb {fn} {n} {m} {extra}" + " ".join(shp) + " " + data
+    return f"c15.bb {fn} {extra}" + " ".join(dims) + " " + " ".join(shp) + " " + data
 
 
 def parse_bb(rep):
@@ -2436,22 +2451,25 @@ def parse_bb(rep):
 
 
 def check_bb_bad(ctx: Ctx, case):
-    """batch shapes that do not broadcast: the helper raises (and the model says so)"""
+    """calls the code must reject: batch shapes that do not broadcast, or core dimensions that violate the helper's
+    assertion (`mat.shape[-1] == vec.shape[-1]`, `lvec.shape[-1] == mat.shape[-2] and mat.shape[-1] == rvec.shape[-1]`) —
+    the helper raises, and the model says so"""
     P = pp()
     fn, n, m = case["fn"], case["n"], case["m"]
     dt = DT(case["dtype"])
     g = torch.Generator().manual_seed(case["dseed"])
     ba, bb_ = case["bad"]
     mk = lambda b_, c_: torch.randn(tuple(b_) + tuple(c_), generator=g, dtype=torch.float64).to(dt)
+    cd = case.get("badcore")
     if fn == "bmv":
-        raw = [mk(ba, (n, m)), mk(bb_, (m,))]
+        raw = [mk(ba, (n, m) if not cd else (cd[0], cd[1])), mk(bb_, (m,) if not cd else (cd[2],))]
     elif fn == "bvv":
         raw = [mk(ba, (n,)), mk(bb_, (m,))]
     else:
-        raw = [mk(ba, (n,)), mk(bb_, (n, m)), mk(ba, (m,))]
+        raw = [mk(ba, (n,) if not cd else (cd[0],)), mk(bb_, (n, m) if not cd else (cd[1], cd[2])), mk(ba, (m,) if not cd else (cd[3],))]
     try:
         getattr(P, fn)(*raw)
-        ctx.fail(pub(case), f"bmv-no-raise: {fn} returned for batch shapes {ba} and {bb_} that do not broadcast")
+        ctx.fail(pub(case), f"bmv-no-raise: {fn} returned for operands of shapes {[tuple(t_.shape) for t_ in raw]} (batch shapes that do not broadcast / core dimensions that violate its assertion)")
     except Exception:
         pass
     case["_bb"] = (bb_line(fn, n, m, raw), None, None, None)
@@ -2597,8 +2615,8 @@ def check_bmv(ctx: Ctx, case):
         return False
     bs = torch.broadcast_shapes(*[tuple(a.shape[:a.ndim - (2 if ((fn == "bmv" and k_ == 0) or (fn == "bvmv" and k_ == 1)) else 1)]) for k_, a in enumerate(raw)])
     core = {"bmv": (n,), "bvv": (n, m), "bvmv": ()}[fn]
-    want_shape = tuple(bs) + core if (fn != "bvmv" or bs) else (1,)
-    if tuple(y.shape) != want_shape:
+    want_shape = tuple(bs) + core
+    if fn != "bvmv" and tuple(y.shape) != want_shape:        # (bvmv: the model's `atleast1d` decides, see run_bmv)
         ctx.fail(pub(case), f"bmv-shape: {fn} returned shape {tuple(y.shape)}, expected {want_shape}")
         return False
     # the whole batch through the model's broadcasting (bmv_batched / bvv_batched / bvmv_batched): shapes and every entry
@@ -2609,7 +2627,7 @@ def check_bmv(ctx: Ctx, case):
         magall = torch.matmul(rd[0].abs().unsqueeze(-1), rd[1].abs().unsqueeze(-1).mT)
     else:
         magall = (rd[0].abs().unsqueeze(-1).mT @ rd[1].abs() @ rd[2].abs().unsqueeze(-1)).squeeze(-1).squeeze(-1)
-    case["_bb"] = (bb_line(fn, n, m, raw), list(bs), y.double().reshape(-1).tolist(), magall.reshape(-1).tolist())
+    case["_bb"] = (bb_line(fn, n, m, raw), list(bs) if fn != "bvmv" else list(y.shape), y.double().reshape(-1).tolist(), magall.reshape(-1).tolist())
     for md2, y2 in case.pop("_y2", []):          # (memory layouts may differ between the modes: compared at round-off level)
         if not bool(((y2.double() - y.double()).abs().reshape(-1) <= 64 * eps * magall.reshape(-1) + 1e-300).all()):
             ctx.fail(pub(case), f"mode: {fn} under {md2} (after {mode}) returns other values than under {mode}")
@@ -2674,7 +2692,9 @@ def run_bmv(ctx: Ctx, cases):
                     ctx.disagree("bmv.batch", pub(case), f"{case['fn']}: the model broadcasts batch shapes {case['bad']}, the implementation's contract says they do not")
                 continue
             if res is None or res[0] != bs_ or len(res[1]) != len(yv):
-                ctx.disagree("bmv.batch", pub(case), f"{case['fn']}: implementation batch shape {bs_} ({len(yv)} entries), model {None if res is None else res[0]}")
+                # the model's shape is the law here (broadcast of the batch shapes; `atleast_1d` for bvmv): a failing input
+                ctx.fail(pub(case), f"bmv-shape: {case['fn']} returned batch shape {bs_} ({len(yv)} entries); broadcasting"
+                                    f"{' + atleast_1d' if case['fn'] == 'bvmv' else ''} gives {None if res is None else res[0]}")
                 continue
             for q_, (gv, w, mg) in enumerate(zip(yv, res[1], mg_)):
                 if not (abs(Fraction(gv) - w) <= 64 * eps * mg + 1e-300):
@@ -2977,6 +2997,11 @@ BMV_CORPUS = [
     {"kind": "bmv", "corpus": 19, "seed": 9219, "fn": "lti", "full": [3], "n": 3, "m": 2, "dtype": "float32", "b1": [], "b2": [3], "b3": [], "bx": [3], "bu": [1],
      "hasc": False, "lie": False, "out": False, "dseed": 719},
     {"kind": "bmv", "corpus": 20, "seed": 9220, "fn": "bmv", "full": [], "n": 2, "m": 2, "dtype": "float64", "b1": [], "b2": [], "bad": [[2, 3], [2]], "lie": False, "out": False, "dseed": 720},
+    {"kind": "bmv", "corpus": 32, "seed": 9232, "fn": "bmv", "full": [], "n": 2, "m": 3, "dtype": "float64", "b1": [], "b2": [], "bad": [[2], [2]], "badcore": [2, 3, 1], "lie": False, "out": False, "dseed": 732},
+    {"kind": "bmv", "corpus": 28, "seed": 9228, "fn": "bmv", "full": [], "n": 1, "m": 2, "dtype": "float64", "b1": [], "b2": [], "bad": [[], []], "badcore": [1, 2, 3], "lie": False, "out": False, "dseed": 728},
+    {"kind": "bmv", "corpus": 29, "seed": 9229, "fn": "bmv", "full": [], "n": 2, "m": 3, "dtype": "float32", "b1": [], "b2": [], "bad": [[2], [2]], "badcore": [2, 3, 2], "lie": False, "out": False, "dseed": 729},
+    {"kind": "bmv", "corpus": 30, "seed": 9230, "fn": "bvmv", "full": [], "n": 2, "m": 2, "dtype": "float64", "b1": [], "b2": [], "bad": [[], []], "badcore": [3, 2, 2, 2], "lie": False, "out": False, "dseed": 730},
+    {"kind": "bmv", "corpus": 31, "seed": 9231, "fn": "bvmv", "full": [], "n": 2, "m": 2, "dtype": "float64", "b1": [], "b2": [], "bad": [[2, 3], [2, 3]], "badcore": [2, 2, 3, 4], "lie": False, "out": False, "dseed": 731},
     {"kind": "bmv", "corpus": 21, "seed": 9221, "fn": "bvmv", "full": [], "n": 2, "m": 3, "dtype": "float64", "b1": [], "b2": [], "bad": [[3, 1], [2, 2]], "lie": False, "out": False, "dseed": 721},
     _bmv(13, "bvv", 3, 3, [2], [2], [2], lie=True, lie_which=2, dyadic=False),
     _bmv(14, "bvmv", 3, 3, [2], [2], [], [2], lie=True, lie_which=5, dyadic=False),
